@@ -243,7 +243,10 @@ pub fn layout_strategy(nd: usize) -> impl Strategy<Value = LayoutSpec> {
             pad_front,
             pad_back,
         });
-    prop_oneof![1 => plain, 4 => general]
+    // contiguous in memory but not standard: permuted and/or reversed axes, no steps, no padding
+    let perm2 = Just((0..nd).collect::<Vec<usize>>()).prop_shuffle();
+    let contiguous = (perm2, proptest::collection::vec(any::<bool>(), nd)).prop_map(move |(perm, rev)| LayoutSpec { perm, steps: vec![1; nd], rev, pad_front: vec![0; nd], pad_back: vec![0; nd] });
+    prop_oneof![2 => plain, 3 => contiguous, 8 => general]
 }
 
 /// A logical array realised inside a sentinel-filled parent.
